@@ -42,4 +42,13 @@ for root,_,files in os.walk(H+"/hooks"):
 json.dump({"Replace":rep}, open(oj,"w"), indent=1)
 PY
 cd $R
-go build -overlay=$OJ -tags verif -o $H/bin/drive${PID:+-$PID} ./verifdrive
+# An accessor hook that no longer compiles because an unexported declaration it reaches was RENAMED (same receiver and
+# signature) is re-bound by harness/hookfix.py and the build retried; anything else fails as before.
+ERR=$H/overlay/builderr${PID:+-$PID}.txt
+for attempt in 1 2 3 4; do
+  if go build -overlay=$OJ -tags verif -o $H/bin/drive${PID:+-$PID} ./verifdrive 2> $ERR; then cat $ERR >&2; exit 0; fi
+  [ -x $H/bin/sygx ] || (cd $H/sygx && go build -o $H/bin/sygx .)
+  python3 $H/hookfix.py $OJ $ERR || break
+done
+cat $ERR >&2
+exit 1
